@@ -194,6 +194,8 @@ def finish_observation(st, sf, sc, verdict, cs, ob):
         elif sock is cs.get("csock"):
             evs.append((letter.upper(), dig))
     ob["events"] = evs
+    ob["discarded"] = {"c": st.discards.get(id(cs.get("csock")), 0), "s": st.discards.get(id(cs.get("ssock")), 0),
+                       "any": sum(st.discards.values())}
     ob["verdict"] = verdict
     ob["sched"] = {"steps": st.sched.steps, "ticks": st.sched.ticks, "timeouts": st.sched.timeouts,
                    "frames": len(st.air.wire), "maxframe": st.air.maxlen, "end": dict(st.sched.end_state)}
@@ -340,6 +342,11 @@ def stack_oracle(sc, ob):
             bad.append(("fullstack-thread-exception", "thread %s ended with %s: %s" % (name, exc_name(r[1]), r[1])))
     if ob["air_anomalies"]:
         bad.append(("fullstack-radio-frame-malformed", "; ".join(sorted(set(ob["air_anomalies"]))[:3])))
+    if ob["discarded"]["any"]:
+        bad.append(("fullstack-i-pdu-discarded-receive-queue-full",
+                    "TransmissionControlObject.enqueue discarded %d I PDU(s) of the client socket and %d of the server socket "
+                    "(receive window %s / %s): the peer was allowed to send more than the receive queue holds"
+                    % (ob["discarded"]["c"], ob["discarded"]["s"], sc.get("c_recv_buf", 1), sc["recv_buf"])))
     for side, peer in (("c", "s"), ("s", "c")):
         sent = ob["link"].log[side]
         air = [d for ns, nr, d in ob["air"][side]]
